@@ -150,6 +150,7 @@ type seqRun struct {
 
 	trace     []any
 	dumpCache map[string]string
+	streams   map[string]string // stream sha256 -> dump hash of its restore
 	aborted   bool
 	held      bool
 }
@@ -165,7 +166,7 @@ func (s *seqRun) violation(key, what string) {
 }
 
 func (s *seqRun) startWorker() error {
-	p, err := vf.StartWorker(false, "c09", nil, nil, s.log)
+	p, err := vf.StartWorker(false, "c09", nil, []string{"GOMAXPROCS=2"}, s.log)
 	if err != nil {
 		return err
 	}
@@ -175,10 +176,15 @@ func (s *seqRun) startWorker() error {
 		return fmt.Errorf("open: %w", err)
 	}
 	if r.Err != "" {
-		return fmt.Errorf("NewStore: %s", r.Err)
+		return &storeOpenError{r.Err}
 	}
 	return nil
 }
+
+// storeOpenError: snapshot.NewStore itself returned an error.
+type storeOpenError struct{ msg string }
+
+func (e *storeOpenError) Error() string { return "NewStore: " + e.msg }
 
 // call sends one request. died=true: the child exited before answering (its
 // exit code is returned); that is an observation.
@@ -193,8 +199,13 @@ func (s *seqRun) call(q wreq) (r wresp, died bool, code int) {
 	case err == nil:
 		return r, false, 0
 	case errors.Is(err, vf.ErrProcDied):
-		code, _ = s.p.WaitTimeout(10 * time.Second)
+		code, ok := s.p.WaitTimeout(30 * time.Second)
 		s.p = nil
+		if !ok || code < 0 {
+			// killed by the harness or by a signal: no verdict from this
+			s.abort(fmt.Sprintf("child did not exit on its own (code %d)", code))
+			return r, true, -2
+		}
 		return r, true, code
 	default:
 		s.c.Inconclusive("worker call: " + err.Error())
@@ -216,8 +227,13 @@ func (s *seqRun) abort(why string) {
 // staging directory dropped, database restored from the newest snapshot.
 func (s *seqRun) restart() {
 	if err := s.startWorker(); err != nil {
-		s.violation("restart:store-does-not-open", "after a child exit the store no longer opens: "+err.Error())
-		s.aborted = true
+		var oe *storeOpenError
+		if errors.As(err, &oe) {
+			s.violation("restart:store-does-not-open", "after a child exit the store no longer opens: "+err.Error())
+			s.aborted = true
+		} else {
+			s.abort("harness: restarting child: " + err.Error())
+		}
 	}
 }
 
@@ -258,7 +274,11 @@ func (s *seqRun) observeAndCheck(cc checkCtx) {
 	if s.aborted {
 		return
 	}
-	r, died, code := s.call(wreq{Op: "observe", Scratch: s.scratch})
+	known := make([]string, 0, len(s.streams))
+	for k := range s.streams {
+		known = append(known, k)
+	}
+	r, died, code := s.call(wreq{Op: "observe", Scratch: s.scratch, Known: known})
 	if died {
 		if !s.aborted {
 			s.violation("observe:child-exit", fmt.Sprintf("child exited (code %d) while listing/opening/restoring snapshots of an uncorrupted store after %s", code, cc.op))
@@ -427,11 +447,21 @@ func (s *seqRun) observeAndCheck(cc checkCtx) {
 			s.violation("resolve:restore-failed", fmt.Sprintf("after %s: restoring listed snapshot %s fails: %s", cc.op, so.ID, so.RestoreErr))
 			continue
 		}
+		if !so.Restored {
+			// identical stream bytes were restored and dumped before
+			s.c.Count("streams_unchanged_since_last_restore", 1)
+			if h := s.streams[so.StreamSHA]; h != ms.Exp.DumpHash {
+				s.violation("resolve:wrong-database", fmt.Sprintf("after %s: %s (%s) streams the bytes of a different database than recorded", cc.op, so.ID, ms.Kind))
+			}
+			continue
+		}
+		s.c.Count("restores", 1)
 		h, err := s.dumpHash(so.RestoreFile, so.RestoreSHA)
 		if err != nil {
 			s.violation("resolve:wrong-database", fmt.Sprintf("after %s: restored database of %s cannot be read: %v", cc.op, so.ID, err))
 			continue
 		}
+		s.streams[so.StreamSHA] = h
 		if h != ms.Exp.DumpHash {
 			a, _ := sqlref.DumpFile(ms.Exp.DBFile)
 			b, _ := sqlref.DumpFile(so.RestoreFile)
@@ -902,7 +932,7 @@ func (s *seqRun) genOp() opSpec {
 }
 
 func newSeq(c *vf.Ctx, tag string, no int, stream uint64) (*seqRun, error) {
-	s := &seqRun{c: c, no: no, tag: tag, r: c.Rand(stream), dumpCache: map[string]string{}}
+	s := &seqRun{c: c, no: no, tag: tag, r: c.Rand(stream), dumpCache: map[string]string{}, streams: map[string]string{}}
 	s.root = vf.TempDir("c09")
 	s.storeDir = filepath.Join(s.root, "store")
 	s.scratch = filepath.Join(s.root, "scratch")
@@ -956,7 +986,7 @@ func run(c *vf.Ctx) {
 
 	defer snapgen.UseFastTmp("c09")()
 
-	nSeq := c.N(80, 2400)
+	nSeq := c.N(48, 3000)
 	if v := os.Getenv("VERIF_NSEQ"); v != "" {
 		fmt.Sscan(v, &nSeq)
 	}
@@ -974,7 +1004,7 @@ func run(c *vf.Ctx) {
 	}
 	// Enumerated part: every exit point of Close, for both sink kinds, on a
 	// set of store shapes, with and without FULL_NEEDED.
-	nShapes := c.N(2, 20)
+	nShapes := c.N(1, 20)
 	no := 0
 	for sh := 0; sh < nShapes; sh++ {
 		for _, kind := range []string{"localfull", "install", "localinc"} {
@@ -1018,6 +1048,23 @@ func run(c *vf.Ctx) {
 					no++
 				}
 			}
+		}
+	}
+
+	// Enumerated part 2: SetDueNext(Full) lands between the last Write and
+	// Close of a sink, for each sink kind and ending.
+	for _, kind := range []string{"localinc", "localfull", "install"} {
+		for _, end := range []string{"close", "cancel", "err-mid", "abandon"} {
+			sc := []opSpec{
+				{Type: "sink", Payload: "localfull", Ending: "close", Rel: "higher"},
+				{Type: "sink", Payload: "localinc", Ending: "close", Rel: "higher"},
+				{Type: "sink", Payload: kind, Ending: end, Rel: "higher", Interleave: true},
+				{Type: "sink", Payload: "localinc", Ending: "close", Rel: "higher"},
+				{Type: "sink", Payload: "localfull", Ending: "close", Rel: "higher"},
+				{Type: "sink", Payload: "localinc", Ending: "close", Rel: "higher"},
+			}
+			jobs = append(jobs, job{tag: "set-full-before-close", no: no, script: sc})
+			no++
 		}
 	}
 
@@ -1073,5 +1120,5 @@ func run(c *vf.Ctx) {
 	close(ch)
 	wg.Wait()
 	c.Extra("sequences_planned", len(jobs))
-	c.Require(int64(c.N(400, 8000)), c.N(150, 3000))
+	c.Require(int64(c.N(250, 8000)), c.N(100, 3000))
 }
